@@ -335,6 +335,8 @@ func (s *Stream) closeAndWait(waitCallback bool) error {
 	}
 
 	if waitCallback && s.getCallbacks() != nil {
+		// an OnData which waits in a read for more data has to be woken up, or it would never return
+		s.safeCloseNotify()
 		s.asyncGoroutineWg.Wait()
 	}
 	s.clean()
@@ -436,7 +438,11 @@ func (s *Stream) fillDataToReadBuffer(buf bufferSliceWrapper) error {
 	//stream had closed, which maybe closed by user due to timeout.
 	if s.getStreamState() == uint32(streamClosed) {
 		s.pendingData.clear()
-		s.recvBuf.recycle()
+		// a Close that is still waiting for a running OnData has not cleaned up yet: the read buffer is in use by the
+		// callback goroutine (only this goroutine starts one) and will be recycled by that Close.
+		if atomic.LoadUint32(&s.callbackInProcess) == 0 {
+			s.recvBuf.recycle()
+		}
 		return nil
 	}
 	// Unblock any readers
